@@ -18,7 +18,10 @@ ROW = ('%sR <dtml-var sequence-number> <dtml-var previous-sequence> <dtml-var ne
 SRC_VARS = ('<dtml-in seq start=st end=en size=sz orphan=orp overlap=ov>' + ROW +
             '<dtml-else>EMPTY</dtml-in>')
 SRC_PLAIN = '<dtml-in seq>' + ROW + '<dtml-else>EMPTY</dtml-in>'
-PB = '<dtml-in previous-batches mapping></dtml-in>' 
+PB = '<dtml-in previous-batches mapping></dtml-in>'
+# a second loop over the same name inside the body of the first displayed element: it works on the same lazily filled
+# sequence (no element is produced twice, nothing beyond what the outer loop already needed)
+NEST = '<dtml-if sequence-start><dtml-in seq size=sz orphan=orp overlap=ov></dtml-in></dtml-if>'
 
 _templates = {}
 
